@@ -111,6 +111,9 @@ class Driver:
                 self.mode, self.j = 'fresh', args[0]
                 fr.seekLr(self.starts[args[0] - 1])
                 self.ev.append(dict(op='seek', j=args[0], p=self.starts[args[0] - 1]))
+            elif kind == 'seekcur':
+                self.mode, self.j = 'fresh', self.k if self.mode == 'in' else self.j - 1
+                self.ev.append(dict(op='seekcur', p=fr.seekCurrentLrStart()))
             elif kind == 'tell':
                 self.ev.append(dict(op='tell', r=fr.tellLr()))
             self.ev.append(dict(op='eofflag', v=bool(fr.isEOF)))
@@ -126,7 +129,7 @@ def abstract_told(ev_list):
     the verdict on every event is TLC's."""
     told = False
     for e in ev_list:
-        if e['op'] == 'seek':
+        if e['op'] in ('seek', 'seekcur'):
             told = False
         elif e['op'] in ('take', 'tonext'):
             told = True
@@ -177,7 +180,7 @@ def run(ctx):
             elif c < 0.90:
                 dr.op('seek', rng.randint(1, len(lens)))
             elif abstract_told(dr.ev):
-                dr.op('tell')
+                dr.op(rng.choice(['tell', 'tell', 'seekcur']))
         if tif == 'le' and rng.random() < 0.5:
             out = io.BytesIO()
             try:
